@@ -226,6 +226,26 @@ func vfC05Gen(seed int64, idx int) *vfC05Scenario {
 		}
 		return sc
 	}
+	if idx%40 == 2 || idx%40 == 3 {
+		// template "fdjoin": the relay dial succeeds and serves the ordinary caller while the ranker still holds
+		// back a direct address; a force-direct caller that joined the same worker must still get that attempt
+		sc.Template = "fdjoin"
+		sc.PerPeer, sc.FDLimit = 4, 4
+		last := vfC05Out{"ok", ms(30 + rnd.Intn(60))}
+		if idx%40 == 3 {
+			last = vfC05Out{"fail", ms(30 + rnd.Intn(60))}
+		}
+		sc.Addrs = []*vfC05Addr{
+			mk("r1", "/ip4/9.9.9.9/tcp/4001/p2p/"+relayID+"/p2p-circuit", true, false, vfC05Out{"ok", ms(80 + rnd.Intn(60))}),
+			mk("t1", "/ip4/1.2.3.4/tcp/4001", false, true, vfC05Out{"fail", ms(20 + rnd.Intn(60))}),
+			mk("w1", "/ip4/1.2.3.4/udp/4002/webrtc-direct", false, false, last),
+		}
+		sc.Callers = []vfC05Caller{
+			{Name: "cA", Start: 0},
+			{Name: "cB", Start: ms(5 + rnd.Intn(300)), ForceDirect: true},
+		}
+		return sc
+	}
 	sc.Template = "random"
 	kinds := []string{"ok", "fail", "fail", "hang"}
 	na := 1 + rnd.Intn(4)
